@@ -42,3 +42,16 @@ pub open spec fn kind(e: SignatureError) -> Kind {
         SignatureError::SignatureDoesNotMatch(_) => Kind::SignatureDoesNotMatch,
     }
 }
+
+/// `From<SignatureError> for Box<dyn Error + Send + Sync>` (the `?` in sigv4_validate_request): boxing keeps the value and its dynamic type
+pub uninterp spec fn box_sig(e: SignatureError) -> BoxError;
+pub broadcast axiom fn axiom_box_sig(e: SignatureError)
+    ensures (#[trigger] box_sig(e)).is::<SignatureError>(), box_sig(e).payload::<SignatureError>() == e;
+impl vstd::std_specs::convert::FromSpecImpl<SignatureError> for BoxError {
+    open spec fn obeys_from_spec() -> bool { true }
+    open spec fn from_spec(v: SignatureError) -> Self { box_sig(v) }
+}
+impl From<SignatureError> for BoxError {
+    #[verifier::external_body]
+    fn from(e: SignatureError) -> (r: BoxError) { unimplemented!() }
+}
